@@ -17,13 +17,14 @@ RULES = {
     "metrics-util/src/storage/bucket.rs": [(ATOMIC, r".v_\1("), (r"\.get\(\)\.write\(", ".get().v_write("),
                                            (r"const BLOCK_SIZE: usize = 64;", "const BLOCK_SIZE: usize = 2;")],
     "metrics-util/src/registry/recency.rs": [(ATOMIC, r".v_\1(")],
+    "metrics-util/src/registry/mod.rs": [(r"\.read\(\)", ".v_read_lock()"), (r"\.write\(\)", ".v_write_lock()")],
     "metrics-util/src/recoverable.rs": [(r"\.upgrade\(\)", ".v_upgrade()"), (r"Arc::try_unwrap\(", "metrics::verif_sched::v_try_unwrap("),
                                         (r"(Arc|Weak)::strong_count\(", "metrics::verif_sched::v_strong_count("), (r"\.strong_count\(\)", ".v_strong_count_m()")],
     "metrics-exporter-dogstatsd/src/storage.rs": [(ATOMIC, r".v_\1(")],
 }
 USE = {
     "metrics": "#[allow(unused_imports)]\nuse crate::verif_sched::{VAtomic as _, VArith as _, VPtr as _};\n",
-    "other": "#[allow(unused_imports)]\nuse metrics::verif_sched::{VAtomic as _, VArith as _, VPtr as _, VWeak as _, VCountM as _};\n",
+    "other": "#[allow(unused_imports)]\nuse metrics::verif_sched::{VAtomic as _, VArith as _, VPtr as _, VWeak as _, VCountM as _, VRwLock as _};\n",
     "metrics-util/src/storage/bucket.rs": "#[allow(unused_imports)]\nuse metrics::verif_sched::{VAtomic as _, VArith as _, VPtr as _};\n#[allow(unused_imports)]\nuse crate::verif_cb::VCb as _;\n",
 }
 
